@@ -148,6 +148,54 @@ pub fn exec_oracle(kind: &str, fields: &[&str]) -> String {
             }
             "oracle pass".to_string()
         }
+        "S_C16G" => {
+            // every documented numeric parameter is read: another value gives another operator (the definitions are
+            // written from the documentation, one per operator with all its parameters; a key dropped from a gamut
+            // is silently ignored, by the rule for unknown keys)
+            let def = unescape(fields[0]);
+            let kind = if def.contains("grids=") { "plain" } else { "default" };
+            let geo = vec![Coor4D([0.2, 0.95, 100.0, 2020.0]), Coor4D([-0.1, -0.5, 10.0, 2000.5]), Coor4D([0.21, 0.96, 50.0, 2010.0])];
+            let cart = vec![Coor4D([3513638.19, 778956.45, 5248216.46, 2020.0]), Coor4D([-2.0e6, 4.0e6, 4.5e6, 2000.5])];
+            let deg = vec![Coor4D([55.0, 12.0, 100.0, 2020.0]), Coor4D([-33.0, 151.0, 10.0, 2000.5])];
+            let run = |d: &str| -> Option<Vec<Vec<Coor4D>>> {
+                let mut out = vec![];
+                for data in [&geo, &cart, &deg] {
+                    for fwd in [true, false] {
+                        match run_kind(kind, d, fwd, data) {
+                            Ok((_, r)) => out.push(r),
+                            Err(_) => return None,
+                        }
+                    }
+                }
+                Some(out)
+            };
+            let Some(base) = run(&def) else { return format!("oracle FAIL {def} cannot be instantiated") };
+            let tokens: Vec<&str> = def.split_whitespace().collect();
+            for (i, tok) in tokens.iter().enumerate() {
+                let Some((k, v)) = tok.split_once('=') else { continue };
+                let Ok(x) = v.parse::<f64>() else { continue };
+                if def.contains('|') || ["zone", "padding", "t_obs"].contains(&k) {
+                    continue;
+                }
+                let mut same_everywhere = true;
+                for other in [x * 1.25 + 0.25, x - 1.0, -x + 3.0] {
+                    let mut t: Vec<String> = tokens.iter().map(|w| w.to_string()).collect();
+                    t[i] = format!("{k}={other}");
+                    let Some(r) = run(&t.join(" ")) else {
+                        same_everywhere = false; // a value the operator refuses: it looked at it
+                        break;
+                    };
+                    if r.iter().zip(base.iter()).any(|(a, b)| a.iter().zip(b.iter()).any(|(p, q)| !same_bits(p, q))) {
+                        same_everywhere = false;
+                        break;
+                    }
+                }
+                if same_everywhere {
+                    return format!("oracle FAIL {def}: the parameter {k} has no effect (three other values give bit-identical results in both directions on three operand sets)");
+                }
+            }
+            "oracle pass".to_string()
+        }
         "S_C16N" => {
             // a Texts parameter: the elements between the commas, trimmed, every one of them
             let v = unescape(fields[0]);
@@ -1865,6 +1913,41 @@ fn oracle_c19c(fields: &[&str]) -> String {
         let td = CoordinateTuple::dot(&a, b);
         check!(td == want || (td.is_nan() && want.is_nan()), "CoordinateTuple::dot of two Coor32 is {} instead of {}", td, want);
         check!(same(a.hypot2(&b), (a[0] as f64 - b[0] as f64).hypot(a[1] as f64 - b[1] as f64)), "hypot2 of two Coor32");
+        // a 64 bit tuple combined with a 32 bit one: the 32 bit elements are widened (exactly), the arithmetic is
+        // that of binary64 on the full left hand side
+        let l = Coor2D([v[0], v[1]]);
+        for (name, got, want) in [
+            ("+", l + b, [l[0] + b[0] as f64, l[1] + b[1] as f64]),
+            ("-", l - b, [l[0] - b[0] as f64, l[1] - b[1] as f64]),
+            ("*", l * b, [l[0] * b[0] as f64, l[1] * b[1] as f64]),
+            ("/", l / b, [l[0] / b[0] as f64, l[1] / b[1] as f64]),
+            ("+ &", l + &b, [l[0] + b[0] as f64, l[1] + b[1] as f64]),
+            ("* &", l * &b, [l[0] * b[0] as f64, l[1] * b[1] as f64]),
+        ] {
+            check!(same(got[0], want[0]) && same(got[1], want[1]), "Coor2D {} Coor32: {:?} {:?} gives {:?} instead of {:?}", name, l, b, got, want);
+        }
+    }
+    // the bulk accessors of every dimension: the elements there are, NaN for the ones there are not
+    {
+        let c3 = Coor3D([v[0], v[1], v[2]]);
+        let c2 = Coor2D([v[0], v[1]]);
+        let c32 = Coor32([v[0] as f32, v[1] as f32]);
+        let (x, y, z, t) = c.xyzt();
+        check!(same(x, v[0]) && same(y, v[1]) && same(z, v[2]) && same(t, v[3]), "xyzt of a 4D tuple");
+        let (x, y, z, t) = c3.xyzt();
+        check!(same(x, v[0]) && same(y, v[1]) && same(z, v[2]) && t.is_nan(), "xyzt of a 3D tuple is ({}, {}, {}, {})", x, y, z, t);
+        let (x, y, z) = c3.xyz();
+        check!(same(x, v[0]) && same(y, v[1]) && same(z, v[2]), "xyz of a 3D tuple");
+        let (x, y, z, t) = c2.xyzt();
+        check!(same(x, v[0]) && same(y, v[1]) && z.is_nan() && t.is_nan(), "xyzt of a 2D tuple is ({}, {}, {}, {})", x, y, z, t);
+        let (x, y, z) = c2.xyz();
+        check!(same(x, v[0]) && same(y, v[1]) && z.is_nan(), "xyz of a 2D tuple");
+        let (x, y, z, t) = c32.xyzt();
+        check!(same(x, v[0] as f32 as f64) && same(y, v[1] as f32 as f64) && z.is_nan() && t.is_nan(), "xyzt of a 32 bit tuple");
+        let (x, y) = c3.xy();
+        check!(same(x, v[0]) && same(y, v[1]), "xy of a 3D tuple");
+        let (x, y, z, t) = (v[0], v[1]).xyzt();
+        check!(same(x, v[0]) && same(y, v[1]) && z.is_nan() && t.is_nan(), "xyzt of a pair");
     }
     // set_xyz / set_xyzt: all or (too short) all-NaN; fill
     let mut w = c;
@@ -2286,10 +2369,28 @@ fn oracle_c08o(fields: &[&str]) -> String {
             }
         }
     }
+    // among several grids the first one containing the point is used: a point a few millimetres inside the north or
+    // east border of the first grid (54-58 N, 8-16 E for all the Danish test grids) gets the first grid's correction
+    if def.starts_with("gridshift") && def.contains(',') && !def.contains("@missing") && !def.contains("test_subset") {
+        if let Ok(first) = ctx.get_grid(&first_grid) {
+            for (lat, lon) in [(58.0 - 1e-7, 12.25), (56.25, 16.0 - 1e-7), (58.0 - 5e-5, 9.5), (54.0 + 1e-7, 12.25), (56.25, 8.0 + 1e-7)] {
+                let p = Coor4D::geo(lat, lon, 10.0, 2020.0);
+                let Some(corr) = first.at(&p, 0.5) else { continue };
+                let mut d = vec![p];
+                let n = ctx.apply(op, Fwd, &mut d).unwrap_or(usize::MAX);
+                let want = if first.bands() == 1 { [p[0], p[1], p[2] - corr[0]] } else { [p[0] + corr[0], p[1] + corr[1], p[2]] };
+                if n != 1 || !((d[0][0] - want[0]).abs() <= 1e-15) || !((d[0][1] - want[1]).abs() <= 1e-15) || !((d[0][2] - want[2]).abs() <= 1e-9) {
+                    return format!("oracle FAIL {def}: the point {lat} N {lon} E inside the first grid gets ({}, {}, {}), the first grid's correction gives ({}, {}, {})", d[0][0], d[0][1], d[0][2], want[0], want[1], want[2]);
+                }
+            }
+        }
+    }
     // points on the borders of the grid and within a metre of them belong to the grid (the margin beyond continues
     // it): every operator delivers something there, also those that look up the neighbourhood of the point
     if !def.contains("100800401") {
-        for (lat, lon) in [(58.0, 12.0), (57.999995, 12.0), (56.0, 16.0), (56.0, 15.999995), (58.0, 16.0), (54.0, 8.0), (54.0, 12.0), (56.0, 8.0), (58.2, 16.2), (53.8, 7.8)] {
+        for (lat, lon) in [(58.0, 12.0), (57.999995, 12.0), (56.0, 16.0), (56.0, 15.999995), (58.0, 16.0), (54.0, 8.0), (54.0, 12.0), (56.0, 8.0), (58.2, 16.2), (53.8, 7.8),
+            // a hair outside the south and west borders (inside every tolerance but the interpolation's own)
+            (54.0 - 2e-8, 12.25), (56.25, 8.0 - 2e-8), (54.0 - 3e-7, 9.5), (54.0 - 2e-8, 8.0 - 2e-8)] {
             let p = Coor4D::geo(lat, lon, 10.0, 2020.0);
             let mut d = if def.starts_with("deformation") { vec![Ellipsoid::default().cartesian(&p)] } else if def.starts_with("deflection") { vec![Coor4D([lat, lon, 10.0, 2020.0])] } else { vec![p] };
             // (test_subset.datum is smaller: 55.5-57.5 N, 11-13 E; with it first in the list the other grid answers)
@@ -2337,7 +2438,10 @@ fn oracle_c08o(fields: &[&str]) -> String {
         // the inverse undoes the forward inside coverage (not for the one-way deflection, nor raw output)
         // (nor for the test file whose sub-grid deliberately disagrees with its parent: the round trip
         // across such a boundary is not defined)
-        if !def.starts_with("deflection") && !def.contains(" raw") && !def.contains("with_subgrid") {
+        // (nor for lists of unrelated grids — the NTv2 test file and the Gravsoft one disagree by 40 m —: a point on the
+        // border goes out through one grid and comes back through the other)
+        let unrelated = def.contains(".gsb,test.datum");
+        if !def.starts_with("deflection") && !def.contains(" raw") && !def.contains("with_subgrid") && !unrelated {
             let fwd = d[0];
             let m = ctx.apply(op, Inv, &mut d).unwrap_or(usize::MAX);
             if m == 1 {
@@ -2759,6 +2863,10 @@ fn oracle_c09e(fields: &[&str]) -> String {
 /// `Ellipsoid::named` on any text
 fn oracle_c09n(fields: &[&str]) -> String {
     let name = unescape(fields[0]);
+    // the triaxial type reads the same texts, and tuples of two or three numbers
+    if let Ok(t) = geodesy::ellps::TriaxialEllipsoid::named(&name) {
+        let _ = (t.semimajor_axis(), t.semimedian_axis(), t.semiminor_axis(), t.flattening(), t.eccentricity_squared(), t.third_flattening());
+    }
     match Ellipsoid::named(&name) {
         Ok(e) => {
             // a named ellipsoid is then used without further ado
@@ -2804,6 +2912,22 @@ fn oracle_c13(fields: &[&str]) -> String {
             let (n, out) = tryrun!(run(&a, fwd, &pts));
             if n != pts.len() || out.iter().zip(pts.iter()).any(|(x, y)| !same_bits(x, y)) {
                 return format!("oracle FAIL {a}: the data came back changed or the count is {n} for {} tuples", pts.len());
+            }
+        }
+        return "oracle pass".to_string();
+    }
+    // a parameter the operator does not declare: either it is ignored (the rule for unknown keys) or, if a later
+    // version accepts it, it follows the convention
+    if kind == "lon0opt" {
+        let (_, fa) = tryrun!(run(&a, true, &pts));
+        let (_, fb) = tryrun!(run(&b, true, &pts));
+        let shifted: Vec<Coor4D> = pts.iter().map(|p| Coor4D([p[0] - extra[0].to_radians(), p[1], p[2], p[3]])).collect();
+        let (_, fs) = tryrun!(run(&b, true, &shifted));
+        for i in 0..pts.len() {
+            let ignored = same_bits(&fa[i], &fb[i]);
+            let conventional = close(fa[i][0], fs[i][0], 4e-15, 1e-8) && close(fa[i][1], fs[i][1], 4e-15, 1e-8);
+            if !ignored && !conventional {
+                return format!("oracle FAIL {a} at ({}, {}) gives ({}, {}): neither what {b} gives there ({}, {}) nor what it gives {} degrees further west ({}, {})", pts[i][0], pts[i][1], fa[i][0], fa[i][1], fb[i][0], fb[i][1], extra[0], fs[i][0], fs[i][1]);
             }
         }
         return "oracle pass".to_string();
